@@ -1684,8 +1684,10 @@ class C09(Check):
         note="trusted: Lean kernel, axioms {propext, Classical.choice, Quot.sound}; the translators (tokenizer + recursive descent for the C++ "
         "function, ast tables for core.py) and the correspondence harness. Modelled, not verified: C++ int/long arithmetic and std::set "
         "(the interpreter works on unbounded integers and a duplicate-free list; counted loops read their bounds once, justified by "
-        "reference_program_wf), scipy's csr_matrix constructor (structure contract StaticP is a hypothesis, evaluated on every generated "
-        "case), SWIG marshalling, the hydraulic solve (full runs are judged by the statement's oracle only; generated hydraulics are kept "
+        "reference_program_wf), scipy's csr_matrix constructor (modelled by buildCsr: sorted merged rows, indptr as prefix counts; its output "
+        "is PROVED to meet the structure contract for every network without self-loops -- csr_structure_correct, "
+        "csr_init_correct_of_topology -- and compared with scipy's indptr / indices / data on every generated case; what remains a "
+        "decidable hypothesis evaluated per case is multiOk, the n_links table of the Python code), SWIG marshalling, the hydraulic solve (full runs are judged by the statement's oracle only; generated hydraulics are kept "
         "benign: control valves are bridges, at most one FCV, no tank next to two control valves). _update_internal_graph and "
         "_get_isolated_junctions_and_links are parsed into statement trees whose interpretation is proved equal to updateGraph / getIsolated "
         "(one tree node = a fixed group of source statements, matched textually); _initialize_internal_graph, _get_csr_data_index and the head "
@@ -1708,7 +1710,7 @@ class C09(Check):
         "translators in harness/props/c09.py (C++ tokenizer + recursive descent; Python ast statement tables)",
         "correspondence harness harness/props/c09.py (drives the real WNTRSimulator methods and the compiled extension, wraps the "
         "bookkeeping functions in-process)",
-        "scipy.sparse.csr_matrix construction: structure contract (sorted duplicate-free rows) evaluated per case, not proved",
+        "scipy.sparse.csr_matrix construction = Model buildCsr: compared array by array per case (the structure contract itself is proved)",
         "SWIG marshalling of numpy arrays into check_for_isolated_junctions (exercised); C++ integer and std::set semantics (modelled)",
     ]
     assumptions = [
